@@ -84,14 +84,20 @@ Definition rbe_add (s : rbe) (a : arrival) : result (rbe * option (Z * list Z)) 
   | ValueErr => ValueErr | Crash => Crash | OutOfFuel => OutOfFuel
   end.
 
-(* run until the first exception; per call the return value of add() and, for the
-   correspondence, latest_estimated_throughput after the call *)
-Fixpoint run (s : rbe) (l : list arrival) : rbe * list (option (Z * list Z) * Z) * Z :=
+(* for the correspondence only: latest_estimated_throughput after a call and the
+   value incoming_bitrate.rate(now) has after it *)
+Definition observe (s1 : rbe) (now : Z) : Z * option Z :=
+  (latest (control s1),
+   match rate (incoming s1) now with Ok (_, r) => r | _ => None end).
+
+(* run until the first exception; per call the return value of add() and the
+   observation above *)
+Fixpoint run (s : rbe) (l : list arrival) : rbe * list (option (Z * list Z) * (Z * option Z)) * Z :=
   match l with
   | [] => (s, [], 0)
   | a :: l' =>
       match rbe_add s a with
-      | Ok (s1, x) => let '(s2, xs, e) := run s1 l' in (s2, (x, latest (control s1)) :: xs, e)
+      | Ok (s1, x) => let '(s2, xs, e) := run s1 l' in (s2, (x, observe s1 (a_time a)) :: xs, e)
       | ValueErr => (s, [], ERR_VALUE)
       | Crash => (s, [], ERR_CRASH)
       | OutOfFuel => (s, [], ERR_FUEL)
@@ -161,7 +167,8 @@ Definition arrival_of_sx (x : sx) : arrival :=
   mkArrival (sx_z (sx_nth x 0)) (sx_z (sx_nth x 1)) (sx_z (sx_nth x 2)) (sx_z (sx_nth x 3))
             (usage_of_z (sx_z (sx_nth x 4))) (fl_of_sx (sx_nth x 5)).
 
-(* per call: (latest) or (latest estimate ssrcs remb) with remb = (0 bytes) | (status) *)
+(* per call: (latest rate) or (latest rate estimate ssrcs remb), rate = () | (r),
+   remb = (0 bytes) | (status) *)
 Definition remb_sx (r : result bytes) : sx :=
   match r with
   | Ok b => L [A 0; of_zs b]
@@ -170,10 +177,10 @@ Definition remb_sx (r : result bytes) : sx :=
   | OutOfFuel => L [A ERR_FUEL]
   end.
 
-Definition out_sx (o : option (Z * list Z) * Z) : sx :=
+Definition out_sx (o : option (Z * list Z) * (Z * option Z)) : sx :=
   match fst o with
-  | None => L [A (snd o)]
-  | Some (e, l) => L [A (snd o); A e; of_zs l; remb_sx (pack_remb_fci e l)]
+  | None => L [A (fst (snd o)); of_opt A (snd (snd o))]
+  | Some (e, l) => L [A (fst (snd o)); of_opt A (snd (snd o)); A e; of_zs l; remb_sx (pack_remb_fci e l)]
   end.
 
 Definition rbe_sx (s : rbe) : sx :=
